@@ -140,3 +140,291 @@ Section Inst.
     end.
 
 End Inst.
+
+Lemma core3_go : forall tl l, (fix go (tl : bool) (l : list stmt) : bool := match l with [] => true | x :: r => core3_stmt tl x && go tl r end) tl l = core3_prog tl l.
+Proof. intros tl l. induction l as [|x r IH]; cbn; [reflexivity|rewrite IH; reflexivity]. Qed.
+
+
+Fixpoint erase (v : value) : value :=
+  match v with
+  | VClos k nm ps body _ cap _ => VClos k nm ps body (mentions_l n_caller body) cap []
+  | VList l => VList (map erase l)
+  | _ => v
+  end.
+Fixpoint cfree' (v : value) : Prop :=
+  match v with
+  | VClos _ _ _ _ _ _ _ => False
+  | VList l => (fix all (l : list value) : Prop := match l with [] => True | x :: r => cfree' x /\ all r end) l
+  | _ => True
+  end.
+Lemma erase_cfree : forall v, cfree' v -> erase v = v.
+Proof.
+  fix IH 1. intros v H. destruct v; cbn [erase cfree'] in *; try reflexivity; try contradiction.
+  f_equal. induction l as [|x r IHr]; [reflexivity|]. destruct H as [H1 H2]. cbn [map]. rewrite (IH x H1), (IHr H2). reflexivity.
+Qed.
+Section VInd.
+  Variable P : value -> Prop.
+  Hypothesis Hi : forall z, P (VInt z).
+  Hypothesis Hs : forall s, P (VStr s).
+  Hypothesis Hl : forall l, Forall P l -> P (VList l).
+  Hypothesis Hu : P VUndef.
+  Hypothesis Hn : forall i, P (VNs i).
+  Hypothesis Hc : P VNsCtor.
+  Hypothesis Hlo : forall i, P (VLoop i).
+  Hypothesis Hcl : forall k nm ps body uc cap cs, P (VClos k nm ps body uc cap cs).
+  Fixpoint value_ind2 (v : value) : P v :=
+    match v with
+    | VInt z => Hi z | VStr s => Hs s
+    | VList l => Hl l ((fix G (l : list value) : Forall P l :=
+                          match l with [] => Forall_nil P | x :: r => Forall_cons x (value_ind2 x) (G r) end) l)
+    | VUndef => Hu | VNs i => Hn i | VNsCtor => Hc | VLoop i => Hlo i
+    | VClos k nm ps body uc cap cs => Hcl k nm ps body uc cap cs
+    end.
+End VInd.
+Lemma to_text_erase : forall v b, to_text b (erase v) = to_text b v.
+Proof.
+  intros v. induction v using value_ind2; intros b; cbn [erase to_text]; try reflexivity.
+  f_equal. f_equal. f_equal. induction H as [|x r Hx Hr IHr]; [reflexivity|]. cbn [map]. rewrite (Hx true), IHr. reflexivity.
+Qed.
+Lemma truthy_erase : forall v, truthy (erase v) = truthy v.
+Proof. intros v. destruct v; cbn; try reflexivity. destruct l; reflexivity. Qed.
+
+Definition rmap {A B} (f : A -> B) (r : res A) : res B := match r with Ok a => Ok (f a) | Err e => Err e end.
+Lemma iter_items_erase : forall v, iter_items (erase v) = rmap (map erase) (iter_items v).
+Proof.
+  intros v. destruct v; cbn; try reflexivity. f_equal. rewrite map_map. cbn. reflexivity.
+Qed.
+Lemma add_values_erase : forall a b, add_values (erase a) (erase b) = rmap erase (add_values a b).
+Proof.
+  intros a b. destruct a, b; cbn; try reflexivity. rewrite map_app. reflexivity.
+Qed.
+
+Definition escope (sc : scope) : scope := map (fun xv => (fst xv, erase (snd xv))) sc.
+Definition estate (ss : sstate) : sstate := mkS (map escope (s_scopes ss)) (map escope (s_heap ss)).
+Definition eres (r : res (sstate * str)) : res (sstate * str) :=
+  match r with Ok (ss, o) => Ok (estate ss, o) | Err e => Err e end.
+
+Lemma dget_e : forall (x : name) (sc : scope), dget N.eqb x (escope sc) = option_map erase (dget N.eqb x sc).
+Proof. intros x sc. unfold escope. induction sc as [|[k v] r IH]; cbn; [reflexivity|]. destruct (N.eqb x k); [reflexivity|exact IH]. Qed.
+Lemma dset_e : forall (x : name) v (sc : scope), escope (dset N.eqb x v sc) = dset N.eqb x (erase v) (escope sc).
+Proof.
+  intros x v sc. unfold escope. induction sc as [|[k w] r IH]; cbn; [reflexivity|].
+  destruct (N.eqb x k); cbn; [reflexivity|rewrite IH; reflexivity].
+Qed.
+Lemma nth_e : forall i (l : list scope), nth i (map escope l) [] = escope (nth i l []).
+Proof. intros i l. exact (map_nth escope l [] i). Qed.
+Lemma lookup_e : forall env (scopes : list scope) x, lookup_env (map escope scopes) env x = option_map erase (lookup_env scopes env x).
+Proof.
+  induction env as [|i E IH]; intros scopes x; cbn [lookup_env]; [reflexivity|].
+  rewrite nth_e, dget_e, IH. destruct (dget N.eqb x (nth i scopes [])); reflexivity.
+Qed.
+Lemma ns_get_e : forall h id a, ns_get (map escope h) id a = erase (ns_get h id a).
+Proof.
+  intros h. unfold ns_get. induction h as [|o r IH]; intros id a.
+  - destruct id; reflexivity.
+  - destruct id as [|id]; cbn [map nth]; [|apply IH]. rewrite (dget_e a o). destruct (dget N.eqb a o); reflexivity.
+Qed.
+Lemma ns_set_e : forall h id a v, map escope (ns_set h id a v) = ns_set (map escope h) id a (erase v).
+Proof.
+  induction h as [|o r IH]; intros [|id] a v; cbn [ns_set map]; try reflexivity.
+  - rewrite dset_e. reflexivity.
+  - rewrite IH. reflexivity.
+Qed.
+Lemma upd_e : forall (scopes : list scope) i x v, map escope (upd_scope scopes i x v) = upd_scope (map escope scopes) i x (erase v).
+Proof.
+  induction scopes as [|s r IH]; intros [|i] x v; cbn [upd_scope map]; try reflexivity.
+  - rewrite dset_e. reflexivity.
+  - rewrite IH. reflexivity.
+Qed.
+
+Section EraseSim.
+  Variable d : list (name * value).
+  Variable Sr : symbols.
+  Hypothesis Hd : forall x v, dget N.eqb x d = Some v -> cfree' v.
+
+  Lemma slk_e : forall env ss x, slk d env (estate ss) x = rmap erase (slk d env ss x).
+  Proof.
+    intros env ss x. unfold slk, estate; cbn [s_scopes]. rewrite lookup_e.
+    destruct (lookup_env (s_scopes ss) env x); [reflexivity|]. cbn [option_map].
+    destruct (dget N.eqb x d) eqn:E; [cbn; rewrite (erase_cfree v (Hd x v E)); reflexivity|].
+    unfold spec_globals. cbn [dget]. destruct (N.eqb x n_namespace); reflexivity.
+  Qed.
+  Lemma getattr_e : forall h v a, getattr (map escope h) (erase v) a = rmap erase (getattr h v a).
+  Proof.
+    intros h v a. destruct v; cbn [erase getattr rmap]; try reflexivity.
+    - rewrite ns_get_e. reflexivity.
+    - destruct (N.eqb a a_index); reflexivity.
+  Qed.
+  Lemma eval_e : forall env ss e,
+    eval (slk d env (estate ss)) (s_heap (estate ss)) e = rmap erase (eval (slk d env ss) (s_heap ss) e).
+  Proof.
+    intros env ss e. induction e; cbn [eval]; try reflexivity.
+    - apply slk_e.
+    - rewrite IHe1. destruct (eval (slk d env ss) (s_heap ss) e1) as [a|]; cbn [rmap bind]; [|reflexivity].
+      rewrite IHe2. destruct (eval (slk d env ss) (s_heap ss) e2) as [b|]; cbn [rmap bind]; [|reflexivity].
+      unfold to_str. rewrite !to_text_erase. reflexivity.
+    - rewrite IHe1. destruct (eval (slk d env ss) (s_heap ss) e1) as [a|]; cbn [rmap bind]; [|reflexivity].
+      rewrite IHe2. destruct (eval (slk d env ss) (s_heap ss) e2) as [b|]; cbn [rmap bind]; [|reflexivity].
+      apply add_values_erase.
+    - rewrite slk_e. destruct (slk d env ss x) as [v|]; cbn [rmap bind]; [|reflexivity]. apply getattr_e.
+  Qed.
+  Lemma eval_out_e : forall env ss es,
+    eval_out (slk d env (estate ss)) (s_heap (estate ss)) es = eval_out (slk d env ss) (s_heap ss) es.
+  Proof.
+    intros env ss es. induction es as [|e r IH]; cbn [eval_out]; [reflexivity|]. rewrite eval_e, IH.
+    destruct (eval (slk d env ss) (s_heap ss) e) as [v|]; cbn [rmap bind]; [|reflexivity].
+    unfold to_str. rewrite to_text_erase. reflexivity.
+  Qed.
+  Lemma eval_list_e : forall env ss es,
+    eval_list (slk d env (estate ss)) (s_heap (estate ss)) es = rmap (map erase) (eval_list (slk d env ss) (s_heap ss) es).
+  Proof.
+    intros env ss es. induction es as [|e r IH]; cbn [eval_list]; [reflexivity|]. rewrite eval_e, IH.
+    destruct (eval (slk d env ss) (s_heap ss) e) as [v|]; cbn [rmap bind]; [|reflexivity].
+    destruct (eval_list (slk d env ss) (s_heap ss) r); reflexivity.
+  Qed.
+  Lemma eval_kvs_e : forall env ss kvs,
+    eval_kvs (slk d env (estate ss)) (s_heap (estate ss)) kvs = rmap escope (eval_kvs (slk d env ss) (s_heap ss) kvs).
+  Proof.
+    intros env ss kvs. induction kvs as [|[a e] r IH]; cbn [eval_kvs]; [reflexivity|]. rewrite eval_e, IH.
+    destruct (eval (slk d env ss) (s_heap ss) e) as [v|]; cbn [rmap bind]; [|reflexivity].
+    destruct (eval_kvs (slk d env ss) (s_heap ss) r); reflexivity.
+  Qed.
+  Lemma sassign_e : forall env ss x v, estate (sassign env ss x v) = sassign env (estate ss) x (erase v).
+  Proof. intros [|i E] ss x v; unfold sassign, estate; cbn [s_scopes s_heap]; [reflexivity|]. rewrite upd_e. reflexivity. Qed.
+  Lemma new_scope_e : forall ss sc, new_scope (estate ss) (escope sc) = (fst (new_scope ss sc), estate (snd (new_scope ss sc))).
+  Proof. intros ss sc. unfold new_scope, estate; cbn [fst snd s_scopes s_heap]. rewrite map_length, map_app. reflexivity. Qed.
+  Lemma fold_bind_e : forall xs vs (acc : scope),
+    fold_left (fun a xv => dset N.eqb (fst xv) (snd xv) a) (combine xs (map erase vs)) (escope acc) =
+    escope (fold_left (fun a xv => dset N.eqb (fst xv) (snd xv) a) (combine xs vs) acc).
+  Proof.
+    induction xs as [|x r IH]; intros vs acc; [reflexivity|]. destruct vs as [|v vs]; [reflexivity|].
+    cbn [map combine fold_left fst snd]. rewrite <- dset_e. apply IH.
+  Qed.
+End EraseSim.
+
+Section EraseMain.
+  Variable d : list (name * value).
+  Variable Sr : symbols.
+  Hypothesis Hd : forall x v, dget N.eqb x d = Some v -> cfree' v.
+
+  Lemma sx_erase : forall fuel tl env ss l, core3_prog tl l = true ->
+    sx d fuel env (estate ss) l = eres (sxi d Sr fuel env ss l).
+  Proof.
+    induction fuel as [|f IH]; intros tl env ss l Hc; [reflexivity|].
+    destruct l as [|s rest]; [reflexivity|].
+    cbn [core3_prog] in Hc. apply andb_true_iff in Hc. destruct Hc as [Hcs Hcr].
+    cbn [sx sxi].
+    assert (Step : forall X X', X' = eres X ->
+              (do (st1, o1) <- X'; do (st2, o2) <- sx d f env st1 rest; Ok (st2, o1 ++ o2)) =
+              eres (do (st1, o1) <- X; do (st2, o2) <- sxi d Sr f env st1 rest; Ok (st2, o1 ++ o2))).
+    { intros X X' ->. destruct X as [[st1 o1]|e]; cbn [eres bind]; [|reflexivity].
+      rewrite (IH tl env st1 rest Hcr). destruct (sxi d Sr f env st1 rest) as [[st2 o2]|e]; reflexivity. }
+    apply Step. clear Step.
+    destruct s as [es|t b ei el|tg it te b el|x e|x a e|x kvs|x b|bs b|k b|m ps b|g args|ps g args b]; cbn [core3_stmt] in Hcs; try discriminate.
+    - rewrite (eval_out_e d Hd). destruct (eval_out (slk d env ss) (s_heap ss) es); reflexivity.
+    - rewrite (core3_go tl b), (core3_go tl ei), (core3_go tl el) in Hcs.
+      apply andb_true_iff in Hcs. destruct Hcs as [Hcs H3]. apply andb_true_iff in Hcs. destruct Hcs as [H1 H2].
+      rewrite (eval_e d Hd). destruct (eval (slk d env ss) (s_heap ss) t) as [v|e]; cbn [rmap bind]; [|reflexivity].
+      rewrite truthy_erase. destruct (truthy v); [apply (IH tl); exact H1|].
+      clear H1. induction ei as [|s r IHr]; [apply (IH tl); exact H3|].
+      cbn [core3_prog] in H2. apply andb_true_iff in H2. destruct H2 as [H2a H2b].
+      destruct s; try (apply IHr; exact H2b).
+      rewrite (eval_e d Hd). destruct (eval (slk d env ss) (s_heap ss) test) as [v2|e]; cbn [rmap bind]; [|reflexivity].
+      rewrite truthy_erase. destruct (truthy v2); [|apply IHr; exact H2b].
+      apply (IH tl). cbn [core3_stmt] in H2a. rewrite (core3_go tl body) in H2a.
+      apply andb_true_iff in H2a. destruct H2a as [H2a _]. apply andb_true_iff in H2a. destruct H2a as [H2a _]. exact H2a.
+    - rewrite (core3_go false b), (core3_go false el) in Hcs. apply andb_true_iff in Hcs. destruct Hcs as [H1 H2].
+      rewrite (eval_e d Hd). destruct (eval (slk d env ss) (s_heap ss) it) as [v|e]; cbn [rmap bind]; [|reflexivity].
+      rewrite iter_items_erase. destruct (iter_items v) as [items|e]; cbn [rmap bind]; [|reflexivity].
+      assert (It : forall items idx st out,
+                (fix iter (items : list value) (idx : N) (st : sstate) (out : str) {struct items} : res (sstate * str * N) :=
+                   match items with
+                   | [] => Ok (st, out, idx)
+                   | item :: more =>
+                       do ok <- match te with
+                                | Some t => let '(i, stt) := new_scope st [(tg, item)] in
+                                            do tv <- eval (slk d (i :: env) stt) (s_heap stt) t; Ok (truthy tv)
+                                | None => Ok true
+                                end;
+                       if ok then
+                         let '(i, st0) := new_scope st [(tg, item); (n_loop, VLoop (idx + 1))] in
+                         do (st1, o) <- sx d f (i :: env) st0 b; iter more (idx + 1)%N st1 (out ++ o)
+                       else iter more idx st out
+                   end) (map erase items) idx (estate st) out =
+                match (fix iter (items : list value) (idx : N) (st : sstate) (out : str) {struct items} : res (sstate * str * N) :=
+                   match items with
+                   | [] => Ok (st, out, idx)
+                   | item :: more =>
+                       do ok <- match te with
+                                | Some t => let '(i, stt) := new_scope st [(tg, item)] in
+                                            do tv <- eval (slk d (i :: env) stt) (s_heap stt) t; Ok (truthy tv)
+                                | None => Ok true
+                                end;
+                       if ok then
+                         let '(i, st0) := new_scope st [(tg, item); (n_loop, VLoop (idx + 1))] in
+                         do (st1, o) <- sxi d Sr f (i :: env) st0 b; iter more (idx + 1)%N st1 (out ++ o)
+                       else iter more idx st out
+                   end) items idx st out with
+                | Ok (st', out', n) => Ok (estate st', out', n)
+                | Err e => Err e
+                end).
+      { induction items0 as [|item more IHm]; intros idx st out; [reflexivity|]. cbn [map].
+        assert (Ok_eq : match te with
+                        | Some t => let '(i, stt) := new_scope (estate st) [(tg, erase item)] in
+                                    do tv <- eval (slk d (i :: env) stt) (s_heap stt) t; Ok (truthy tv)
+                        | None => Ok true
+                        end =
+                        match te with
+                        | Some t => let '(i, stt) := new_scope st [(tg, item)] in
+                                    do tv <- eval (slk d (i :: env) stt) (s_heap stt) t; Ok (truthy tv)
+                        | None => Ok true
+                        end).
+        { destruct te as [t|]; [|reflexivity].
+          change [(tg, erase item)] with (escope [(tg, item)]). rewrite new_scope_e.
+          unfold new_scope; cbn [fst snd]. rewrite (eval_e d Hd).
+          match goal with |- context [eval (slk d ?e0 ?s0) ?h0 t] => destruct (eval (slk d e0 s0) h0 t) as [tv|e] end; cbn [rmap bind]; [|reflexivity].
+          rewrite truthy_erase. reflexivity. }
+        rewrite Ok_eq. clear Ok_eq.
+        destruct (match te with
+                  | Some t => let '(i, stt) := new_scope st [(tg, item)] in
+                              do tv <- eval (slk d (i :: env) stt) (s_heap stt) t; Ok (truthy tv)
+                  | None => Ok true
+                  end) as [ok|e]; cbn [bind]; [|reflexivity].
+        destruct ok; [|apply IHm].
+        change [(tg, erase item); (n_loop, VLoop (idx + 1))] with (escope [(tg, item); (n_loop, VLoop (idx + 1))]).
+        rewrite new_scope_e. unfold new_scope; cbn [fst snd].
+        rewrite (IH false _ _ b H1). destruct (sxi d Sr f (length (s_scopes st) :: env) _ b) as [[st1 o]|e]; cbn [eres bind]; [|reflexivity].
+        apply IHm. }
+      rewrite It. clear It.
+      match goal with |- context [match ?X with Ok _ => _ | Err _ => _ end] => destruct X as [[[st1 out] n]|e] end; cbn [bind eres]; [|reflexivity].
+      destruct el as [|e0 el']; [reflexivity|]. destruct (N.eqb n 0); [|reflexivity].
+      change (@nil (name * value)) with (escope []) at 1. rewrite new_scope_e. unfold new_scope; cbn [fst snd].
+      rewrite (IH false _ _ (e0 :: el') H2).
+      destruct (sxi d Sr f _ _ (e0 :: el')) as [[st3 o]|e]; reflexivity.
+    - rewrite (eval_e d Hd). destruct (eval (slk d env ss) (s_heap ss) e) as [v|er]; cbn [rmap bind eres]; [|reflexivity].
+      rewrite sassign_e. reflexivity.
+    - rewrite (slk_e d Hd). destruct (slk d env ss x) as [c|er]; cbn [rmap bind]; [|reflexivity].
+      destruct c; cbn [erase]; try reflexivity. rewrite (eval_e d Hd).
+      destruct (eval (slk d env ss) (s_heap ss) e) as [v|er]; cbn [rmap bind eres]; [|reflexivity].
+      unfold sset_heap, estate; cbn [s_scopes s_heap]. rewrite ns_set_e. reflexivity.
+    - rewrite (slk_e d Hd). destruct (slk d env ss n_namespace) as [c|er]; cbn [rmap bind]; [|reflexivity].
+      rewrite (eval_kvs_e d Hd). destruct (eval_kvs (slk d env ss) (s_heap ss) kvs) as [vs|er]; cbn [rmap bind]; [|destruct c; reflexivity].
+      destruct c; cbn [erase]; try reflexivity. cbn [eres]. rewrite sassign_e. cbn [erase].
+      unfold sset_heap, estate; cbn [s_scopes s_heap]. rewrite map_app, map_length. reflexivity.
+    - rewrite (core3_go false b) in Hcs.
+      change (@nil (name * value)) with (escope []) at 1. rewrite new_scope_e. unfold new_scope; cbn [fst snd].
+      rewrite (IH false _ _ b Hcs). destruct (sxi d Sr f _ _ b) as [[st2 o]|e]; cbn [eres bind]; [|reflexivity].
+      rewrite sassign_e. reflexivity.
+    - rewrite (core3_go false b) in Hcs.
+      rewrite (eval_list_e d Hd). destruct (eval_list (slk d env ss) (s_heap ss) (map snd bs)) as [vs|e]; cbn [rmap bind]; [|reflexivity].
+      match goal with |- context [new_scope (estate ss) ?sc] =>
+        replace sc with (escope (fold_left (fun a xv => dset N.eqb (fst xv) (snd xv) a) (combine (map fst bs) vs) []))
+          by (symmetry; exact (fold_bind_e (map fst bs) vs [])) end.
+      rewrite new_scope_e. unfold new_scope; cbn [fst snd].
+      rewrite (IH false _ _ b Hcs). destruct (sxi d Sr f _ _ b) as [[st2 o]|e]; reflexivity.
+    - rewrite (core3_go false b) in Hcs.
+      change (@nil (name * value)) with (escope []) at 1. rewrite new_scope_e. unfold new_scope; cbn [fst snd].
+      rewrite (IH false _ _ b Hcs). destruct (sxi d Sr f _ _ b) as [[st2 o]|e]; reflexivity.
+    - cbn [eres]. rewrite sassign_e. reflexivity.
+  Qed.
+End EraseMain.
